@@ -479,9 +479,12 @@ func (e *Enc) script(o *Obligation, withModel bool) string {
 		hdr = strings.Join(kept, "\n")
 	}
 	sb.WriteString(hdr)
-	for _, l := range e.lines[:o.Prefix] {
+	for i, l := range e.lines[:o.Prefix] {
 		if o.Cover && strings.HasPrefix(l, "(assert") && strings.Contains(l, "(forall ") {
 			continue // reachability guards are decided without the quantified frame facts (weaker assumptions)
+		}
+		if i < o.LoopStart && strings.HasPrefix(l, "(assert") && strings.Contains(l, "(forall ") {
+			continue // quantified facts about memory before the enclosing loop's havoc (weaker assumptions, still sound)
 		}
 		sb.WriteString(l + "\n")
 	}
